@@ -70,7 +70,7 @@ def poly_dist(poly, p):
 
 class Region:
     def __init__(self):
-        self.polys, self.discs = [], []
+        self.polys, self.discs, self.safe_discs = [], [], []
 
     def dist(self, p):
         d = 1e30
@@ -99,8 +99,11 @@ class Region:
                         break
                 if ok:
                     return True
-        # discs (round joins / caps) are only used for the outside test: the statement's round join is a sector on the
-        # outer side and its round cap a half disc, which the full disc over-approximates when a neighbouring segment is short
+        # a round join is a sector on the outer side and a round cap a half disc: the full disc is inside the region only
+        # when the neighbouring segments are at least hw long (their rectangles then cover the rest of the disc)
+        for c, r in self.safe_discs:
+            if math.hypot(p[0] - c[0], p[1] - c[1]) + m <= r:
+                return True
         return False
 
 
@@ -172,6 +175,8 @@ def stroke_region(ops, width, cap, join, miter_limit):
             p1 = (v[0] + n1[0], v[1] + n1[1]); p2 = (v[0] + n2[0], v[1] + n2[1])
             if join == "round":
                 reg.discs.append((v, hw))
+                if math.hypot(s1[1][0] - s1[0][0], s1[1][1] - s1[0][1]) >= hw and math.hypot(s2[1][0] - s2[0][0], s2[1][1] - s2[0][1]) >= hw:
+                    reg.safe_discs.append((v, hw))
             else:
                 reg.polys.append([v, p1, p2])
                 if join == "miter":
@@ -190,6 +195,8 @@ def stroke_region(ops, width, cap, join, miter_limit):
                 d = norm((e[0] - o[0], e[1] - o[1]))
                 if cap == "round":
                     reg.discs.append((e, hw))
+                    if math.hypot(e[0] - o[0], e[1] - o[1]) >= hw:
+                        reg.safe_discs.append((e, hw))
                 elif cap == "square":
                     nx, ny = -d[1] * hw, d[0] * hw
                     f = (e[0] + d[0] * hw, e[1] + d[1] * hw)
